@@ -47,7 +47,7 @@ CLAIMED = {
   technique=TECH + ": state machine vs reference model, callback recorder, shrinking to JSON replay",
   ref="DESIGN.md §4 C08"),
  "C09": dict(
-  text="rapid state machine over issue / edit / mint / burn / transfer-owner (v1 and legacy messages) by owners, former owners, strangers and poor accounts, symbols and min units from overlapping pools so that collisions happen, scales 0..18, amounts placed at the cap, one over it and in fractions of a main unit, parameter changes by the authority; a math/big model predicts acceptance and the exact balance-sheet delta including the fee split, and checks identity uniqueness, owner index, supply <= cap after every step, burned tally and an empty module account.",
+  text="rapid state machine over issue / edit / mint / burn / transfer-owner (v1 and legacy messages) by owners, former owners, strangers and poor accounts, symbols and min units from overlapping pools so that collisions happen, scales 0..18, amounts placed at the cap, one over it and in fractions of a main unit, parameter changes and ERC20 deployments by the authority (for issued tokens and for traced denoms, whose module-owned record takes the message's symbol: fresh, taken, or a taken one in other letter case); a math/big model predicts acceptance and the exact balance-sheet delta including the fee split, and checks identity uniqueness, owner index, supply <= cap after every step, burned tally and an empty module account.",
   note="Bounded random search (<=40-80 ops, 6 users, 8-word symbol pools); the fee factor is re-evaluated with float64 like the code (no symbol length lies near a rounding boundary, asserted at run time); ante handlers are not run; SDK/bank/rapid trusted.",
   technique=TECH + ": state machine vs reference model with exact balance-sheet deltas, shrinking to JSON replay",
   ref="DESIGN.md §4 C09"),
